@@ -280,7 +280,17 @@ func runReplyScenario(seed uint64, size int, t *Trace) error {
 	emit("wrong-gca", genuine, sk, detKey(seed, 61).Pub)
 	body := genuine[2 : len(genuine)-64]
 	for i := 0; i < size; i++ {
-		switch r.pick([]int{25, 10, 10, 15, 10, 10, 10, 10, 12}) {
+		switch r.pick([]int{25, 10, 10, 15, 10, 10, 10, 10, 12, 10}) {
+		case 9: // rogue server: a structured reply that is a little too short (bytes taken out of the bitfield), correctly signed
+			m := append([]byte(nil), body...)
+			cut := 1 + r.Intn(70)
+			if len(m) > 100+cut {
+				at := 40 + r.Intn(400)
+				m2 := append(append([]byte(nil), m[:at]...), m[at+cut:]...)
+				emit("rogue-short-structured", resign(m2, skPriv), sk, e.GCA.Pub)
+				break
+			}
+			emit("genuine-again", genuine, sk, e.GCA.Pub)
 		case 8: // rogue server: an entry the GCA never signed, slipped in among the genuine ones (possibly for a key that is listed)
 			listed := e.S.VerifSnapshot().Servers
 			m := append([]byte(nil), body...)
